@@ -57,7 +57,7 @@ def expectedOf (ops : List Op) : List (Nat × Nat) × List (Nat × Nat) × List 
       match o.kind with
       -- `nest`/`nestout`: a statement whose operand logs a line of its own; two lines, the operand's first
       | "log" | "nest" | "nestout" => if en then go (i + 1) en r ((i, o.n) :: lines) kmsg sil else go (i + 1) en r lines kmsg (i :: sil)
-      | "raw" => go (i + 1) en r ((i, o.n) :: lines) kmsg sil
+      | "raw" | "rush" => go (i + 1) en r ((i, o.n) :: lines) kmsg sil
       | "dis" => go (i + 1) false r lines kmsg sil
       | "en" => go (i + 1) true r lines kmsg sil
       | "dislog" => go (i + 1) false r lines kmsg (i :: sil)
@@ -75,7 +75,7 @@ def stepsOf (tid : Nat) (ops : List Op) : List Step :=
     | o :: r =>
       let st : List Step := match o.kind with
         | "log" | "nest" | "nestout" => [.stmt tid i [.text (o.n - 1)]]
-        | "raw" => [.debugLog ⟨tid, i, o.n⟩]
+        | "raw" | "rush" => [.debugLog ⟨tid, i, o.n⟩]
         | "dis" => [.stmt tid i [.disable]]
         | "en" => [.stmt tid i [.enable]]
         | "dislog" => [.stmt tid i [.disable, .text (o.n - 1)]]
